@@ -19,4 +19,5 @@ def run(ctx):
     ls += lemmas_stage2.p3_lemmas(ctx.tier, ndjson=(0,))
     ls += lemmas_stage2.p3_skeleton_lemmas(ctx.tier, ndjson=(0,))
     ls += lemmas_stage2.u1_lemmas(ctx.tier, ndjson=(0,), havoc=(0,))
+    ls += lemmas_stage2.deep_lemmas(ctx.tier)
     run_lemmas(ctx, ls)
